@@ -1,6 +1,6 @@
 (* Request handlers of the extracted driver: each takes text and returns one JSON line. *)
 From Coq Require Import String List NArith ZArith Bool Arith Ascii.
-From Tealer Require Import Tables LeafPrelude Leaves Syntax Parse Cfg StackAst Keys Analysis Domains Detect Regex.
+From Tealer Require Import Tables LeafPrelude Leaves Syntax Parse Cfg StackAst Keys Analysis Domains Detect Regex Group.
 Import ListNotations.
 Open Scope string_scope.
 
@@ -219,4 +219,73 @@ Definition handle_ast (src : string) : string :=
                                           jlist (map (sval_json (t_prog t) 12) args))) ast)
                         end)) (t_blocks t))
       end
+  end.
+
+(* ---- functions cut out by a dispatch path, and group verdicts *)
+Definition impl_idx (errs : list (nat * (nat * nat))) (b : nat) : string :=
+  match find (fun '(e, _) => Nat.eqb e b) errs with
+  | Some (_, (nx, _)) => string_of_N (N.of_nat nx * 65536 + N.of_nat nx)
+  | None => nat_str b
+  end.
+
+Definition function_json (f : func) (errs : list (nat * (nat * nat))) : string :=
+  match run_all f big_fuel with
+  | Exn e => jobj [("analysis_err", jstr e)]
+  | OutOfFuel => jobj [("analysis_err", jstr "out-of-fuel")]
+  | Done r =>
+      let ids := map b_idx (fn_blocks f) in
+      let ix := impl_idx errs in
+      jobj [("fn_blocks", jlist (map ix ids));
+            ("edges", jobj (map (fun b => (ix (b_idx b), jobj [("next", jlist (map ix (b_next b))); ("prev", jlist (map ix (b_prev b)))])) (fn_blocks f)));
+            ("ctx", jobj (map (fun b => (ix b, jobj (ctx_entries r b))) ids));
+            ("paths", jobj (map (fun '(name, checks) =>
+                                   (name, match run_detector f r big_fuel name checks with
+                                          | Done ps => jlist (map (fun p => jlist (map ix p)) ps)
+                                          | Exn e => jobj [("err", jstr e)]
+                                          | OutOfFuel => jobj [("err", jstr "out-of-fuel")]
+                                          end)) detectors))]
+  end.
+
+Definition handle_function (path : list nat) (src : string) : string :=
+  match parse_program src with
+  | Err e => jobj [("err", jstr e)]
+  | Ok p =>
+      match parse_teal p with
+      | Err e => jobj [("err", jstr e)]
+      | Ok t =>
+          match construct_function t path with
+          | Err e => jobj [("err", jstr e)]
+          | Ok (f, errs) => function_json f errs
+          end
+      end
+  end.
+
+(* group request: contracts (source, list of (name, path)), transactions; verdict per detector *)
+Definition build_functions (contracts : list (string * list (list nat))) : res (list (func * fn_result)) :=
+  map_res (fun x => x)
+    (flat_map (fun '(src, paths) =>
+                 match parse_program src with
+                 | Err e => [Err e]
+                 | Ok p => match parse_teal p with
+                           | Err e => [Err e]
+                           | Ok t => map (fun path => match construct_function t path with
+                                                      | Err e => Err e
+                                                      | Ok (f, _) => match run_all f big_fuel with
+                                                                     | Done r => Ok (f, r)
+                                                                     | Exn e => Err e
+                                                                     | OutOfFuel => Err "out-of-fuel" end
+                                                      end) paths
+                           end
+                 end) contracts).
+
+Definition group_checks : list (string * (bctx -> bool)) :=
+  filter (fun '(n, _) => negb (n =? "group-size-check")) detectors.
+
+Definition handle_group (contracts : list (string * list (list nat))) (group : list gtxn) : string :=
+  match build_functions contracts with
+  | Err e => jobj [("err", jstr e)]
+  | Ok funcs =>
+      jobj (map (fun '(name, checks) =>
+                   let '(dtype, vt) := match Parse.assoc name detector_table with Some x => x | None => ("", None) end in
+                   (name, jlist (map jstr (group_verdict funcs checks dtype vt group)))) group_checks)
   end.
